@@ -459,6 +459,126 @@ func (p *prover) nilErrorFacts(bo *ssa.BinOp, truth bool) []dfact {
 	return out
 }
 
+// boolResultFacts: a helper of the module that reports success in a bool result (`n, ok, err := readMore(...); if !ok
+// { return }`). Where the caller goes on with that result true (false), whatever holds among the helper's parameters
+// and integer results at every one of its returns that return the constant true (false) there holds among the
+// caller's arguments and the values it extracts from the call.
+func (p *prover) boolResultFacts(ex *ssa.Extract, truth bool) []dfact {
+	if p.c == nil {
+		return nil
+	}
+	call, ok := ex.Tuple.(*ssa.Call)
+	if !ok {
+		return nil
+	}
+	if b, isB := ex.Type().Underlying().(*types.Basic); !isB || b.Kind() != types.Bool {
+		return nil
+	}
+	g := call.Call.StaticCallee()
+	if g == nil || g == p.fn || g.Pkg == nil || !strings.HasPrefix(g.Pkg.Pkg.Path(), modPath) || len(g.Blocks) == 0 || p.c.ipDepth > 2 {
+		return nil
+	}
+	var ts []types.Type
+	var pvals []ssa.Value
+	for _, pr := range g.Params {
+		ts = append(ts, pr.Type())
+		pvals = append(pvals, pr)
+	}
+	np := len(pvals)
+	res := g.Signature.Results()
+	for i := 0; i < res.Len(); i++ {
+		ts = append(ts, res.At(i).Type())
+	}
+	qs := quantitiesOf(ts, "q")
+	if len(qs) == 0 || len(qs) > 10 || np != len(call.Call.Args) {
+		return nil
+	}
+	p.c.ipDepth++
+	defer func() { p.c.ipDepth-- }()
+	pg := p.c.proverFor(g)
+	pg.paramFacts()
+	type pair struct{ a, b int }
+	var common map[pair]int64
+	n := 0
+	for _, r := range returnsOf(g) {
+		if ex.Index >= len(r.Results) {
+			return nil
+		}
+		k, isC := constBool(r.Results[ex.Index])
+		if !isC {
+			return nil // may be either: not understood here
+		}
+		if k != truth {
+			continue
+		}
+		n++
+		vals := append(append([]ssa.Value(nil), pvals...), r.Results...)
+		cur := map[pair]int64{}
+		for i, qa := range qs {
+			la := pg.qlin(qa, vals)
+			if k, ok := pg.boundAt(r.Block(), la); ok {
+				cur[pair{i, -1}] = k
+			}
+			if k, ok := pg.boundAt(r.Block(), negLin(la)); ok {
+				cur[pair{-1, i}] = k
+			}
+			for j, qb := range qs {
+				if i != j {
+					if k, ok := pg.boundAt(r.Block(), addLin(la, negLin(pg.qlin(qb, vals)))); ok {
+						cur[pair{i, j}] = k
+					}
+				}
+			}
+		}
+		if common == nil {
+			common = cur
+		} else {
+			for k, v := range common {
+				if w, ok := cur[k]; !ok {
+					delete(common, k)
+				} else if w > v {
+					common[k] = w
+				}
+			}
+		}
+	}
+	if n == 0 || len(common) == 0 {
+		return nil
+	}
+	// the caller's values: arguments, then what it extracts from the call
+	cvals := append([]ssa.Value(nil), call.Call.Args...)
+	extracted := make([]ssa.Value, res.Len())
+	if call.Referrers() != nil {
+		for _, r := range *call.Referrers() {
+			if e2, ok := r.(*ssa.Extract); ok && e2.Index < len(extracted) {
+				extracted[e2.Index] = e2
+			}
+		}
+	}
+	cvals = append(cvals, extracted...)
+	var out []dfact
+	for k, v := range common {
+		la, lb := constLin(0), constLin(0)
+		if k.a >= 0 {
+			if cvals[qs[k.a].index] == nil {
+				continue
+			}
+			la = p.qlin(qs[k.a], cvals)
+		}
+		if k.b >= 0 {
+			if cvals[qs[k.b].index] == nil {
+				continue
+			}
+			lb = p.qlin(qs[k.b], cvals)
+		}
+		d := addLin(la, negLin(lb))
+		if d.ok {
+			out = append(out, dfact{d.pos, d.neg, v - d.c, fmt.Sprintf("result %v of %s", truth, fname(g))})
+		}
+	}
+	return out
+}
+
 // ---------- facts for methods used as bound method values (callbacks) ----------
 
 // fieldChain decodes addr as a chain of field selections from a root value ("" if it is none).
